@@ -23,7 +23,7 @@
 (*                                                                         *)
 (* The trace is stateless per event; `l` is the position in the trace.     *)
 (***************************************************************************)
-EXTENDS SerdeModel, Json, IOUtils, TLC
+EXTENDS DeView, Json, IOUtils, TLC
 
 Rec   == ndJsonDeserialize(IOEnv.VERIF_TRACE)
 Scope == ndJsonDeserialize(IOEnv.VERIF_SCOPE)
@@ -46,10 +46,13 @@ MaxField(v) ==
 \* e.maxalloc: -1 for slice input; for reader input, the configured cap on a single field that is not wholly in the
 \* reader's current buffer: a value holding a larger field may be rejected (and must be if the field is not buffered -
 \* which the trace does not tell, so only "may"); values whose fields all fit must decode.
+\* the family of serde hints the recording target used ("default" when the event does not say)
+HintsOf(e) == IF "hints" \in DOMAIN e THEN e.hints ELSE "default"
+
 DeAllowed(e) ==
     LET G == Scope[e.si].nodes
         r == Dec(G, 1, e.bytes, 1, e.depth, e.maxseq)
-    IN  CASE r.st = "ok"   -> \/ (e.res = "ok" /\ e.value = r.v /\ e.consumed = r.pos - 1)
+    IN  CASE r.st = "ok"   -> \/ (e.res = "ok" /\ e.value = Shown(G, r.v, HintsOf(e)) /\ e.consumed = r.pos - 1)
                               \/ (e.res = "err" /\ e.maxalloc >= 0 /\ MaxField(r.v) > e.maxalloc)
           [] r.st = "err"  -> e.res = "err"
           [] r.st = "free" -> e.res \in {"ok", "err"}
@@ -64,7 +67,7 @@ RtAllowed(e) ==
               LET r == DecAll(G, e.bytes) IN
               /\ e.de.res = "ok"
               /\ e.de.consumed = Len(e.bytes)
-              /\ IF r.st = "ok" THEN e.de.value = r.v        \* (SerAllowed already tied r.v to the denoted value)
+              /\ IF r.st = "ok" THEN e.de.value = Shown(G, r.v, HintsOf(e))        \* (SerAllowed already tied r.v to the denoted value)
                  ELSE d.any                                  \* outside the model: nothing more is required
 
 EventOk(e) ==
